@@ -361,7 +361,8 @@ Section Multi.
   Hypothesis NDF : NoDup F.
   Hypothesis HF : forall h, In h F <-> In h H0 /\ exists t, In t R /\ lin G t h.
   Definition rel (t:N) : Prop := exists h, In h H0 /\ lin G t h.
-  Hypothesis AMO : forall t1 t2, In t1 R -> In t2 R -> rel t1 -> rel t2 -> t1 = t2.
+  (* at most one target shares lineage with a row — or the targets that do are rows themselves (nothing to do for them) *)
+  Hypothesis AMO : forall t1 t2, In t1 R -> In t2 R -> rel t1 -> rel t2 -> t1 = t2 \/ (In t1 H0 /\ In t2 H0).
 
   Definition mv (ds:list N) : Prop := exists t, In t ds /\ ~ In t F /\ exists h, In h F /\ lin G t h.
 
@@ -389,17 +390,20 @@ Section Multi.
       destruct (stamp_dest_spec G W WF F t) as [st [Es CASES]]. { intros HtF. apply dest_AC; auto. }
       cbn [stamp_dests]. rewrite Es. cbn [bind].
       (* no other destination is related once t is *)
-      assert (NOREL : rel t -> forall t', In t' ds -> ~ rel t').
-      { intros Rt t' Ht' Rt'. assert (t' = t) by (apply AMO; auto). subst. auto. }
+      assert (ROWF : forall x, In x R -> In x H0 -> In x F).
+      { intros x HxR Hx. apply HF. split; auto. exists x. split; auto. apply lin_refl. }
+      assert (NOREL : ~ In t F -> rel t -> forall t', In t' ds -> ~ rel t').
+      { intros HtF Rt t' Ht' Rt'. destruct (AMO t' t) as [->|[_ HtH]]; auto. }
       assert (NOMV : rel t -> ~ mv ds).
-      { intros Rt [t' [Ht' [_ [h [Hh L]]]]]. apply (NOREL Rt t' Ht'). eapply rel_of_F; eauto. }
+      { intros Rt [t' [Ht' [Hn [h [Hh L]]]]]. assert (Rt' : rel t') by (eapply rel_of_F; eauto).
+        destruct (AMO t' t) as [->|[Ht'H _]]; auto. }
       destruct CASES as [[HtF ->]|[[HtF [[h [HhF Lh]] [up ->]]]|[HtF [NoF ->]]]].
       + (* t already a row *)
         assert (Rt : rel t) by (eapply rel_of_F; eauto using lin_refl).
         assert (Hth : In t (heads s)) by (apply I2; [exists t; split; [left|]; auto|auto]).
         destruct (IH s Sy NDds Hin') as [steps [os [s' [E1 [E2 [L [Fi [Sy' [Fr HS]]]]]]]]].
         { intros t' Ht'. apply I1. right; auto. }
-        { intros [t' [Ht' Rt']]. exfalso. eapply NOREL; eauto. }
+        { intros _. apply I2. exists t. split; [left|]; auto. }
         exists steps, os, s'. rewrite E1. cbn [bind app]. split; auto. split; auto. split; auto. split; auto. split; auto. split; auto.
         intros x. rewrite HS. cbn [In]. pose proof (NOMV Rt) as NM. split.
         * intros [Hx|[Hx _]]; auto. right. split; auto. intros [_ [t' [Ht' [Hn Hh]]]].
@@ -413,7 +417,7 @@ Section Multi.
         { intros E. apply (in_nil (a:=h)). rewrite <- E. exact HhF. }
         destruct (IH s1 Sy1 NDds Hin') as [steps [os [s' [E1 [E2 [L [Fi [Sy' [Fr HS]]]]]]]]].
         { intros t' Ht' Hh'. apply H1 in Hh'. destruct Hh' as [->|[Hh' Hn]]; [tauto|]. exfalso. apply Hn. apply I1; [right|]; auto. }
-        { intros [t' [Ht' Rt']]. exfalso. eapply NOREL; eauto. }
+        { intros [t' [Ht' Rt']]. exfalso. apply (NOREL HtF Rt t' Ht' Rt'). }
         exists (StampStep F [t] up false :: steps), (ObsOk (rows s1) stm :: os), s'. rewrite E1. cbn [bind app run_steps].
         rewrite E, E2. cbn [length final_rows]. split; auto. split; auto. split; auto. split; [constructor; auto; apply one_row_5; auto|]. split; auto. split; auto.
         intros x. rewrite HS, H1. cbn [In]. pose proof (NOMV Rt) as NM.
@@ -499,7 +503,8 @@ Proof. unfold pre_C05. rewrite !andb_true_iff. intros [[[[[[[_ _] _] _] ND] _] A
 
 Theorem one_related_target G (purge:bool) t (H:list N) : ~ cyclic (all_down G) -> ndeps_okb G = true ->
   (forall t1 t2, In t1 (targets_of t) -> In t2 (targets_of t) ->
-     rel G (if purge then [] else H) t1 -> rel G (if purge then [] else H) t2 -> t1 = t2) ->
+     rel G (if purge then [] else H) t1 -> rel G (if purge then [] else H) t2 ->
+     t1 = t2 \/ (In t1 (if purge then [] else H) /\ In t2 (if purge then [] else H))) ->
   C05_holds (G, purge, t, H) (model_C05 (G, purge, t, H)).
 Proof. intros AC NK AMO.
   destruct t as [|o|l]; [apply base_target; auto| |].
@@ -532,15 +537,17 @@ Proof. destruct l as [|x [|y l]]; cbn; intros L Ha Hb; try lia; destruct Ha as [
 Theorem inclass_holds i : inclass_C05 i = true ->
   (let '(G, _, _, _) := i in ~ cyclic (all_down G) /\ ndeps_okb G = true) -> C05_holds i (model_C05 i).
 Proof. destruct i as [[[G purge] t] H]. unfold inclass_C05. rewrite !andb_true_iff. intros [PRE LE] [AC NK].
-  apply Nat.leb_le in LE. destruct (pre_C05_facts _ _ _ _ PRE) as [WF _].
+  destruct (pre_C05_facts _ _ _ _ PRE) as [WF _].
   apply one_related_target; auto. intros t1 t2 H1 H2 R1 R2.
-  apply (len_le1_eq _ t1 t2 LE); unfold related_targets; apply filter_In; split; auto; rewrite negb_true_iff, is_nil_false.
-  - destruct R1 as [h [Hh L]]. intros E. assert (Hi : In h (filter (lineageb G [t1]) (if purge then [] else H))).
-    { apply filter_In. split; auto. apply (lineageb_spec G [t1] h WF). exists t1. split; [left|]; auto. }
-    rewrite E in Hi. destruct Hi.
-  - destruct R2 as [h [Hh L]]. intros E. assert (Hi : In h (filter (lineageb G [t2]) (if purge then [] else H))).
-    { apply filter_In. split; auto. apply (lineageb_spec G [t2] h WF). exists t2. split; [left|]; auto. }
-    rewrite E in Hi. destruct Hi. Qed.
+  assert (REL : forall t', In t' (targets_of t) -> rel G (if purge then [] else H) t' ->
+                In t' (related_targets G (targets_of t) (if purge then [] else H))).
+  { intros t' Ht' [h [Hh L]]. unfold related_targets. apply filter_In. split; auto. rewrite negb_true_iff, is_nil_false. intros E.
+    assert (Hi : In h (filter (lineageb G [t']) (if purge then [] else H))).
+    { apply filter_In. split; auto. apply (lineageb_spec G [t'] h WF). exists t'. split; [left|]; auto. }
+    rewrite E in Hi. destruct Hi. }
+  apply orb_true_iff in LE. destruct LE as [LE|LE].
+  - left. apply Nat.leb_le in LE. apply (len_le1_eq _ t1 t2 LE); apply REL; auto.
+  - right. rewrite subsetN_incl in LE. split; apply LE; apply REL; auto. Qed.
 
 (* ================================================================== I. command.stamp end to end *)
 Theorem e2e_decider_sound i o : check_e2e i o = true -> E2E_holds i o.
@@ -548,8 +555,24 @@ Proof. destruct i as [[[[G purge] groups] dests] H]. unfold check_e2e, E2E_holds
   destruct (pre_C05_facts _ _ _ _ PRE) as [WF _]. destruct o as [rws'|e]; [|discriminate].
   exists rws'. split; auto. apply stamped_okb_spec; auto. Qed.
 
+Theorem label_decider_sound i o : check_label i o = true -> Label_holds i o.
+Proof. destruct i as [[[G purge] t] H]. unfold check_label, Label_holds.
+  destruct (resolve_label G t) as [[groups dests]|e]; auto.
+  destruct groups as [|g0 [|? ?]]; auto. destruct g0 as [|lr [|h [|? ?]]]; auto.
+  - (* <label>@base *)
+    destruct dests; auto. intros CK PRE. rewrite PRE in CK. destruct (pre_C05_facts _ _ _ _ PRE) as [WF _].
+    destruct o as [rws'|e]; [|discriminate]. rewrite !andb_true_iff in CK. destruct CK as [[ND AC] EQ].
+    exists rws'. split; auto. split; [apply nodupb_NoDup; auto|]. split; [apply antichainb_spec; auto|].
+    intros x. rewrite seteqN_spec in EQ. rewrite EQ, filter_In, negb_true_iff. split; intros [Hx Hl]; split; auto.
+    + intros L. apply (lineageb_spec G _ x WF) in L. congruence.
+    + destruct (lineageb G [lr] x) eqn:E; auto. exfalso. apply Hl. apply (lineageb_spec G _ x WF); auto.
+  - (* <label>@head *)
+    destruct dests as [[|h' [|? ?]]|]; auto. intros CK PRE. rewrite PRE in CK. destruct (pre_C05_facts _ _ _ _ PRE) as [WF _].
+    destruct o as [rws'|e]; [|discriminate]. exists rws'. split; auto. apply stamped_okb_spec; auto.
+  - repeat match goal with |- context [match ?x with _ => _ end] => destruct x end; auto. Qed.
+
 Theorem any_decider_sound i o : check_C05_any i o = true -> C05_any_holds i o.
-Proof. destruct i, o; cbn; try discriminate; [apply decider_sound5|apply e2e_decider_sound]. Qed.
+Proof. destruct i, o; cbn; try discriminate; [apply decider_sound5|apply e2e_decider_sound|apply label_decider_sound]. Qed.
 
 Lemma pre_subset G purge t H : pre_C05 (G, purge, t, H) = true -> subsetN H (ids G) = true.
 Proof. unfold pre_C05. rewrite !andb_true_iff. tauto. Qed.
@@ -607,3 +630,57 @@ Proof. split; [vm_compute; reflexivity|]. split; [apply (rankedb_acyclic Gl N.to
       vm_compute in LB. discriminate. }
     cbn in H3. intuition discriminate.
   - apply e2e_single; [apply (rankedb_acyclic Gl N.to_nat); vm_compute; reflexivity|vm_compute; reflexivity]. Qed.
+
+(* ================================================================== J. label targets *)
+(* <label>@base: always right — exactly the rows sharing lineage with the revision that declares the label go *)
+Theorem label_base_holds G purge lab H : ~ cyclic (all_down G) -> ndeps_okb G = true ->
+  Label_holds (G, purge, LBase lab, H) (model_label (G, purge, LBase lab, H)).
+Proof. intros AC NK. unfold Label_holds, model_label, stamp_label. unfold resolve_label.
+  destruct (label_rev G lab) as [lr|]; [|exact I]. intros PRE. set (H0 := e2e_start purge H) in *.
+  destruct (pre_C05_facts _ _ _ _ PRE) as [WF [ND AN]]. pose proof (gwf_of G WF AC NK) as W.
+  unfold stamp_cmd. fold (e2e_start purge H). fold H0. rewrite (pre_subset _ _ _ _ PRE). cbn [negb].
+  unfold stamp_revs_gen. cbn [filtered_heads].
+  destruct (ffl_spec G W WF [lr] H0) as [l [El [Sl _]]]. rewrite El, app_nil_r.
+  destruct (start_sync H0 ND) as [Sy0 Hh0].
+  assert (HF : forall x, In x (dedupe l) <-> In x H0 /\ lineage G [lr] x).
+  { intros x. rewrite dedupe_In, Sl. unfold lineage, lin. split.
+    - intros [H1 [E|H2]]; [discriminate|auto].
+    - intros [H1 H2]. auto. }
+  destruct (run_deletes G (dedupe l) (start H0) Sy0 (dedupe_NoDup l)) as [os [s' [E [L [Fi [Sy' [H' Fr]]]]]]].
+  { intros x Hx. apply Hh0. apply HF in Hx. tauto. }
+  unfold run_cmd. rewrite E. cbn [option_map]. exists (rows s'). split; auto.
+  destruct Sy' as [N1 [N2 EQ]]. split; auto.
+  assert (RW : forall x, In x (rows s') <-> In x H0 /\ ~ lineage G [lr] x).
+  { intros x. rewrite <- EQ, H', Hh0, HF. tauto. }
+  split; auto. intros x y Hx Hy. apply RW in Hx, Hy. apply AN; tauto. Qed.
+
+(* <label>@head resolved to the head h: right whenever no row shares lineage with the labelled revision only
+   (C05_label_head_refuted is the other side) *)
+Theorem label_head_holds G purge lab H lr h h' : ~ cyclic (all_down G) -> ndeps_okb G = true ->
+  resolve_label G (LHead lab) = Ok ([[lr; h]], Some [h']) ->
+  (forall x, In x (e2e_start purge H) -> lineage G [lr] x -> lineage G [h] x) ->
+  Label_holds (G, purge, LHead lab, H) (model_label (G, purge, LHead lab, H)).
+Proof. intros AC NK RES CLS. unfold Label_holds, model_label, stamp_label. rewrite RES.
+  assert (h' = h).
+  { revert RES. unfold resolve_label. destruct (label_rev G lab); [|discriminate].
+    destruct (label_heads_of G n (heads_down G)) as [[|a [|? ?]]|]; try discriminate; inversion 1; auto. }
+  subst h'. intros PRE. set (H0 := e2e_start purge H) in *.
+  destruct (pre_C05_facts _ _ _ _ PRE) as [WF [ND AN]]. destruct (pre_C05_targets _ _ _ _ PRE) as [NDR [ACR _]].
+  pose proof (gwf_of G WF AC NK) as W. cbn [targets_of] in *.
+  unfold stamp_cmd. fold (e2e_start purge H). fold H0. rewrite (pre_subset _ _ _ _ PRE). cbn [negb].
+  unfold stamp_revs_gen. cbn [filtered_heads].
+  destruct (ffl_spec G W WF [lr; h] H0) as [l [El [Sl _]]]. rewrite El, app_nil_r.
+  assert (HF : forall x, In x (dedupe l) <-> In x H0 /\ exists t, In t [h] /\ lin G t x).
+  { intros x. rewrite dedupe_In, Sl. split; intros [H1 H2]; split; auto.
+    - destruct H2 as [E|[t [Ht L]]]; [discriminate|]. destruct Ht as [Et|[Et|[]]]; subst t.
+      + apply (CLS x H1). exists lr. split; [left|]; auto.
+      + exists h. split; [left|]; auto.
+    - right. destruct H2 as [t [[Et|[]] L]]. subst t. exists h. split; [right; left|]; auto. }
+  destruct (multi_run G W WF H0 [h] (dedupe l) ND AN (dedupe_NoDup l) HF) as [steps [os [E1 [E2 [L [Fi [N' [A' S']]]]]]]]; auto.
+  { intros t1 t2 [<-|[]] [<-|[]]; auto. }
+  rewrite E1, E2. exists (final_rows os H0). split; auto. split; auto. Qed.
+
+(* what the label resolution returns *)
+Lemma label_rev_spec G lab lr : label_rev G lab = Some lr -> exists r, In r G /\ r_id r = lr /\ In lab (r_labels r).
+Proof. unfold label_rev. destruct (find (fun r => memN lab (r_labels r)) G) as [r|] eqn:E; [|discriminate].
+  inversion 1; subst. apply find_some in E. destruct E as [Hr Hm]. exists r. split; auto. split; auto. apply memN_In; auto. Qed.
